@@ -76,19 +76,19 @@ INSTANCES = {
                   twoq(2, 2, 1, 4, [1], random=(10, 50)),
                   twoq(3, 1, 2, 4, [1], random=(20, 80))],
         'thorough': [twoq(1, 0, 1, 3, [1, 2]), twoq(1, 1, 1, 3, [1, 2]), twoq(2, 0, 1, 4, [1, 2]), twoq(2, 2, 1, 4, [1, 2]),
-                     twoq(2, 1, 2, 5, [1, 2], random=(100, 100)), twoq(3, 0, 1, 5, [1]), twoq(3, 1, 2, 5, [1, 2], random=(200, 150)),
-                     twoq(3, 3, 3, 5, [1]), twoq(4, 1, 2, 6, [1], random=(200, 200)), twoq(4, 2, 4, 6, [1], max_states=40000)],
+                     twoq(2, 1, 2, 5, [1, 2], random=(100, 100), max_states=12000), twoq(3, 0, 1, 5, [1]), twoq(3, 1, 2, 5, [1, 2], random=(200, 150), max_states=12000),
+                     twoq(3, 3, 3, 5, [1]), twoq(4, 1, 2, 6, [1], random=(200, 200)), twoq(4, 2, 4, 6, [1], max_states=12000)],
     },
     'arc': {
         'quick': [arc(1, 3, [1, 2], random=(10, 40)),
                   arc(2, 4, [1], random=(20, 80))],
-        'thorough': [arc(1, 3, [1, 2], random=(50, 60)), arc(2, 5, [1], random=(200, 150)), arc(2, 4, [1, 2], random=(100, 100)),
-                     arc(3, 5, [1], random=(300, 200), max_states=60000)],
+        'thorough': [arc(1, 3, [1, 2], random=(50, 60)), arc(2, 5, [1], random=(200, 150)), arc(2, 4, [1, 2], random=(100, 100), max_states=12000),
+                     arc(3, 5, [1], random=(300, 200), max_states=12000)],
     },
     'wtlfu': {
         'quick': [wt(1, 1, 1, 6, 4, [1], random=(20, 80))],
-        'thorough': [wt(1, 1, 1, 6, 4, [1, 2], random=(100, 150)), wt(1, 2, 1, 8, 4, [1], random=(100, 150)),
-                     wt(2, 1, 1, 8, 4, [1], random=(100, 150)), wt(1, 1, 2, 8, 4, [1], random=(100, 150)),
+        'thorough': [wt(1, 1, 1, 6, 4, [1, 2], random=(100, 150), max_states=15000), wt(1, 2, 1, 8, 4, [1], random=(100, 150), max_states=12000),
+                     wt(2, 1, 1, 8, 4, [1], random=(100, 150), max_states=12000), wt(1, 1, 2, 8, 4, [1], random=(100, 150), max_states=12000),
                      wt(1, 1, 1, 3, 4, [1]), wt(2, 2, 2, 10, 5, [1], mode='both', random=(200, 250), max_states=30000)],
     },
 }
